@@ -163,6 +163,9 @@ long vp_ghost_live_fibers(void);
 int vp_preempt_now(pthread_t t);
 void vp_ghost_check_starved(void);
 int vp_ghost_others_idle(void);
+void vp_ghost_check_overdue_sleepers(void);
+const void* vp_ghost_ready_on_my_sched(uint64_t* mark_out);
+long vp_ghost_bypass_bound(void);
 uint64_t vp_ghost_ticks(void);
 // what the tick base would be at monotonic time at_ns if every timer expiration had been accounted on time (diagnostics; 0 = unknown)
 uint64_t vp_ghost_clock_ticks(uint64_t at_ns);
